@@ -41,7 +41,11 @@ CONSTANTS Hashes,      \* hash values of the model names (names sharing a hash =
           DevRehashDropsCollision,   \* rehash loses the entry that continues a collision chain into the next leaf
           DevRehashDropsBoundary,    \* rehash loses the last entry of a full leaf
           DevRebuildDropsLast,       \* extent rebuild loses the last extent when the list spills out of the inode
-          DevCsumClearsLeaf          \* pass 2 clears a directory block whose only fault is its checksum
+          DevCsumClearsLeaf,         \* pass 2 clears a directory block whose only fault is its checksum
+          DevSbCsumRefuses,          \* a superblock whose only fault is its checksum is not repaired (exit 8): literal behaviour of the
+                                     \* pinned tree when no backup is found at the default geometry (fixes/C05_backup_sb_group_size)
+          DevInodeUninitWipes        \* a set *_UNINIT flag with a valid descriptor checksum is believed: the group is not scanned and
+                                     \* everything that lives in it is released (fixes/C05_inode_uninit_first_group)
 
 Modes == {"p", "y", "yD", "b2e", "fo"}       \* -fp, -fy, -fyD, -fy -E bmap2extent, -fy -E fixes_only
 
@@ -231,16 +235,22 @@ Fsck(m) ==
     /\ runs < MaxRuns
     /\ LET damaged == ~SummOK
            \* pass 2: a leaf whose checksum alone is wrong is rewritten with a fresh checksum (Dev: its entries are cleared)
-           lv1  == IF "leaf" \in badcsum /\ DevCsumClearsLeaf THEN [leaves EXCEPT ![1] = <<>>] ELSE leaves
+           wipe == DevInodeUninitWipes /\ uninit /\ Owned(exts, meta) # {}
+           lv1  == IF wipe THEN <<<<>>>>
+                   ELSE IF "leaf" \in badcsum /\ DevCsumClearsLeaf THEN [leaves EXCEPT ![1] = <<>>] ELSE leaves
            \* a dx root that fails its checksum is cleared (clear_htree) and the directory rebuilt in pass 3A
            big  == ~indexed /\ Len(leaves) >= 3
            doRehash == m = "yD" \/ ("dxroot" \in badcsum /\ indexed) \/ big
-           dirN == IF doRehash THEN RehashDir(lv1) ELSE [leaves |-> lv1, index |-> index, indexed |-> indexed]
+           dirN == IF wipe THEN [leaves |-> lv1, index |-> <<>>, indexed |-> FALSE]
+                   ELSE IF doRehash THEN RehashDir(lv1) ELSE [leaves |-> lv1, index |-> index, indexed |-> indexed]
            doRemap == (m = "b2e" /\ kind = "ind") \/ (m # "fo" /\ CanCollapse)
-           mapN == IF doRemap THEN Rebuild(exts) ELSE [exts |-> exts, kind |-> kind, meta |-> meta]
+           mapN == IF wipe THEN [exts |-> <<>>, kind |-> kind, meta |-> {}]
+                   ELSE IF doRemap THEN Rebuild(exts) ELSE [exts |-> exts, kind |-> kind, meta |-> meta]
+           sbstuck == DevSbCsumRefuses /\ "sb" \in badcsum
            own  == Owned(mapN.exts, mapN.meta)
            changed == damaged \/ dirN.leaves # leaves \/ dirN.index # index \/ mapN.exts # exts \/ mapN.meta # meta \/ mapN.kind # kind
        IN  \/ \* repair
+              /\ ~sbstuck
               /\ leaves' = dirN.leaves /\ index' = dirN.index /\ indexed' = dirN.indexed
               /\ exts' = mapN.exts /\ kind' = mapN.kind /\ meta' = mapN.meta
               /\ bitmap' = own /\ freecnt' = Cardinality(AllBlks) - Cardinality(own)          \* pass 5
@@ -249,6 +259,10 @@ Fsck(m) ==
               /\ dch' = (dirN.leaves # leaves \/ dirN.index # index) /\ mch' = (mapN.exts # exts \/ mapN.kind # kind \/ mapN.meta # meta)
               /\ tree' = AbsTree(dirN.leaves, mapN.exts)
               /\ dmgd' = damaged /\ lin3' = big
+           \/ \* (literal) the primary superblock does not verify and no backup is found: e2fsck gives up
+              /\ sbstuck
+              /\ UNCHANGED <<repvars, tree>>
+              /\ exit' = 8 /\ dch' = FALSE /\ mch' = FALSE /\ dmgd' = TRUE /\ lin3' = big
            \/ \* preen meets a problem it may not fix on its own and stops: nothing is written
               /\ m = "p" /\ damaged
               /\ UNCHANGED <<repvars, tree>>
